@@ -21,6 +21,10 @@ def scenario_to_fuzz(sobj):
     known = [576, 577, 1280, 1500, 1514, 4096, 9000, 9216]
     if mtu in known:
         hdr[0] = known.index(mtu)
+    elif mtu < 576:
+        hdr[0] = 16
+        v = max(68, mtu) - 68
+        hdr[1], hdr[2] = v >> 8, v & 255
     else:
         hdr[0] = 8
         v = mtu - 576
